@@ -15,6 +15,8 @@ import OxyModel.Model.CBreaker
     unpark <id>                   -> pass <state> | fallback <state>      (decided now: the `arrive` step happens here)
     finish <id> <code> …          -> unparked <pass|fallback> <state> done <code> <state>   while a request is parked: the breaker
                                      logs under its lock, so the parked request is decided before the completion can evaluate
+    finish2 <id1> <c1> <id2> <c2> … -> unparked <pass|fallback> done2 <c1> <c2> <state>   (one parked, its decision cannot move the state:
+                                     record, record, arrive, check, check — both responses recorded before either check)
     cfg … fx=0                    -> `effects` prints `effects none` (no side effects registered)
     state                         -> standby | tripped until=<ns> | recovering until=<ns>
     effects                       -> effects tripped=<n> standby=<n>
@@ -155,6 +157,8 @@ def step (s : St) : List String → St × String
     | none => (s, "bad-op")
     | some code =>
       if !s.inflight.contains id then (s, "bad-op") else
+      -- every LatencyAtQuantileMS of the condition needs its oracle value on the op line (no silent default)
+      if (oracle s.cfg rest).length < s.cfg.cond.quantiles.length then (s, "bad-op") else
       -- a parked request holds the breaker's lock (the Warn is logged under it): it is decided first
       let (s, pre) := match s.parked with
         | none => (s, "")
@@ -165,6 +169,22 @@ def step (s : St) : List String → St × String
           | .fallback => ({ s with brk := r.2, parked := none }, "unparked fallback " ++ stateStr r.2 ++ " ")
       let r := complete s.cfg s.brk (abs s.now) code (oracle s.cfg rest)
       ({ s with brk := r.1, inflight := s.inflight.erase id }, pre ++ "done " ++ toString code ++ " " ++ stateStr r.1)
+  | "finish2" :: id1 :: c1 :: id2 :: c2 :: rest =>
+    match c1.toNat?, c2.toNat?, s.parked with
+    | some c1, some c2, some pid =>
+      let keeps := (s.brk.state == .recovering && abs s.now ≤ s.brk.until_) || (s.brk.state == .tripped && abs s.now < s.brk.until_)
+      if !s.inflight.contains id1 || !s.inflight.contains id2 || id1 == id2 || !keeps then (s, "bad-op") else
+      if (oracle s.cfg rest).length < s.cfg.cond.quantiles.length then (s, "bad-op") else
+      -- Record_1, Record_2 (no lock needed), the parked request's decision (it holds the lock), then the two checkAndSet
+      let b1 := record (record s.brk (abs s.now) c1) (abs s.now) c2
+      let ra := arrive s.cfg b1 (abs s.now)
+      let k1 := checkAndSet s.cfg ra.2 (abs s.now) (oracle s.cfg rest)
+      let k2 := checkAndSet s.cfg k1.1 (abs s.now) (oracle s.cfg rest)
+      let fl := ((s.inflight.erase id1).erase id2)
+      let (fl, ans) := match ra.1 with | .pass => (pid :: fl, "pass") | .fallback => (fl, "fallback")
+      ({ s with brk := k2.1, inflight := fl, parked := none },
+        "unparked " ++ ans ++ " done2 " ++ toString c1 ++ " " ++ toString c2 ++ " " ++ stateStr k2.1)
+    | _, _, _ => (s, "bad-op")
   | ["burst", n, d] =>
     match n.toNat?, d.toNat? with
     | some n, some d =>
